@@ -403,36 +403,48 @@ func ddLogJSON(c *Case, r *rand.Rand) []byte {
 	return []byte(sb.String())
 }
 
+// ddMetJSON builds the document as a tree ({"series":[...]}); the wire text is its rendering and the tree goes into the Coq
+// case (coq/model/DatadogJson.v ddmet_document walks it as DecodeSeriesItem does)
 func ddMetJSON(c *Case, r *rand.Rand) []byte {
-	var items []string
+	var items []JV
 	for _, s := range c.Body.DDMet {
-		var m []string
+		var m []JKV
 		if s.Metric != nil {
-			m = append(m, `"metric":`+js(*s.Metric))
+			m = append(m, kv("metric", jS(string(*s.Metric))))
 		}
 		if s.Resources != nil {
-			rs := make([]string, len(s.Resources))
+			rs := make([]JV, len(s.Resources))
 			for i, res := range s.Resources {
-				kv := make([]string, len(res))
+				ms := make([]JKV, len(res))
 				for j, l := range res {
-					kv[j] = js(l.K) + ":" + js(l.V)
+					ms[j] = kv(string(l.K), jS(string(l.V)))
 				}
-				rs[i] = "{" + strings.Join(kv, ",") + "}"
+				rs[i] = jO(ms...)
 			}
-			m = append(m, `"resources":[`+strings.Join(rs, ",")+"]")
+			m = append(m, kv("resources", jA(rs...)))
 		}
-		ps := make([]string, len(s.Points))
+		ps := make([]JV, len(s.Points))
 		for i, p := range s.Points {
-			ps[i] = objectOf(r, []string{`"timestamp":` + strconv.FormatInt(p.TsS, 10), `"value":` + jfloat(p.Val)})
+			ps[i] = shuffledObject(r, []JKV{kv("timestamp", jN(strconv.FormatInt(p.TsS, 10))), kv("value", jN(jfloat(p.Val)))})
 		}
-		m = append(m, `"points":[`+strings.Join(ps, ",")+"]")
+		m = append(m, kv("points", jA(ps...)))
 		if r.Intn(4) == 0 {
-			m = append(m, `"type":0`)
+			m = append(m, kv("type", jN("0")))
 		}
-		items = append(items, objectOf(r, m))
+		items = append(items, shuffledObject(r, m))
 	}
-	top := []string{`"series":[` + strings.Join(items, ",") + "]"}
-	return []byte(objectOf(r, top))
+	top := []JKV{kv("series", jA(items...))}
+	if r.Intn(5) == 0 {
+		top = append(top, kv("extra", JV{K: "null"}))
+	}
+	doc := shuffledObject(r, top)
+	if c.Damage {
+		doc, _ = damageDoc(r, doc, 0)
+	}
+	c.doc = &doc
+	var sb strings.Builder
+	doc.render(&sb)
+	return []byte(sb.String())
 }
 
 func otlpAny(v OVal) *otlpCommon.AnyValue {
